@@ -9,8 +9,7 @@
 (*   CollectAll  batch (needAll): wait for every submitted task, then       *)
 (*               resolve errors, route, compute the next step               *)
 (*   CollectOne  eager: wait for ONE finished task, then the same           *)
-(* for every branch-free graph that TMGen grows (MaxBr = 0 in the configs), *)
-(* every failing-node choice, and every   *)
+(* for every graph that TMGen grows, every failing-node choice, and every   *)
 (* interleaving of body completions with the run loop.  Two runs of the    *)
 (* same graph are executed one after the other so that the cross-order      *)
 (* clause of the rule (same result, same executions) is exercised.         *)
@@ -36,7 +35,7 @@ allvars == <<vars, rvars>>
 
 Eager == Mode = "wf" \/ RBug = "eagerbatch"
 FailKind(n) == IF \E i \in 1..Len(fail) : fail[i].n = n THEN (CHOOSE f \in {fail[i] : i \in 1..Len(fail)} : f.n = n).kind ELSE "none"
-CaseEv == [ev |-> "case", id |-> "m", grp |-> "m", mode |-> Mode, nodes |-> NodeSeq, edges |-> EdgeSeq, branches |-> BrSeq, fail |-> fail]
+CaseEv == [ev |-> "case", id |-> "m", grp |-> "m", mode |-> Mode, nodes |-> NodeSeq, edges |-> EdgeSeq, branches |-> <<>>, fail |-> fail]
 
 RECURSIVE Join(_)
 Join(s) == IF s = <<>> THEN "" ELSE s[1] \o Join(Tail(s))
